@@ -80,10 +80,11 @@ Proof.
 Qed.
 
 (* for every shape of C04's model, every list of FRI rows, every number of opened rows, every variant *)
-Theorem coin_projection_is_transcript : forall (t : T.shape) rows uniq v,
+(* shapes without a Lagrange-kernel column: Model/Integrity.v does not model the GKR step (stated scope of C03) *)
+Theorem coin_projection_is_transcript : forall (t : T.shape) rows uniq v, T.sh_lagrange t = None ->
   flat_map (coin_ops (T.sh_ext_deg t) (T.sh_queries t)) (events v (shape_of t rows uniq)) = T.verifier t.
 Proof.
-  intros t rows uniq v. unfold events, head, draw_phase, commit_head, T.verifier.
+  intros t rows uniq v Hlag. unfold events, head, draw_phase, commit_head, T.verifier. rewrite ?Hlag.
   rewrite !flat_map_app, ops_channel_new, ops_query_phase.
   rewrite (ops_fri_commit _ _ (T.sh_fri_layers t) 0 (T.sh_fri_layers t)) by reflexivity.
   unfold shape_of, T.fri_roots; cbn [sh_aux sh_aux_rands sh_n_comp sh_n_deep sh_layers].
